@@ -60,8 +60,10 @@ type c06CheckSpec struct {
 	Conn   bool   `json:"fail_conn"`
 	Sender bool   `json:"fail_sender"`
 	Rcpt   []int  `json:"fail_rcpt"` // recipient indices it fails
-	Body   bool   `json:"fail_body"`
-	Rank   int    `json:"rank"` // completion delay rank
+	// it fails them only the first time it is asked about them in a message (greylisting style)
+	RcptOnce bool `json:"fail_rcpt_first_time_only,omitempty"`
+	Body     bool `json:"fail_body"`
+	Rank     int  `json:"rank"` // completion delay rank
 }
 
 type c06Scenario struct {
@@ -86,13 +88,21 @@ func c06Gen(t *rapid.T) c06Scenario {
 		if rapid.IntRange(0, 2).Draw(t, "rcptfail") == 0 {
 			c.Rcpt = rapid.SliceOfNDistinct(rapid.IntRange(0, 3), 1, 2, rapid.ID[int]).Draw(t, "rcpts_failed")
 			sort.Ints(c.Rcpt)
+			c.RcptOnce = rapid.IntRange(0, 2).Draw(t, "rcpt_once") == 0
 		}
 		sc.Checks = append(sc.Checks, c)
 	}
 	sc.Rcpts = rapid.SliceOfNDistinct(rapid.IntRange(0, 3), 1, 3, rapid.ID[int]).Draw(t, "rcpts")
 	if rapid.IntRange(0, 3).Draw(t, "repeat_rcpt") == 0 {
 		// the client repeats one of its RCPT commands (after a refusal, or by mistake)
-		sc.Rcpts = append(sc.Rcpts, sc.Rcpts[rapid.IntRange(0, len(sc.Rcpts)-1).Draw(t, "repeated")])
+		rep := sc.Rcpts[rapid.IntRange(0, len(sc.Rcpts)-1).Draw(t, "repeated")]
+		sc.Rcpts = append(sc.Rcpts, rep)
+		if len(sc.Checks) >= 2 && rapid.IntRange(0, 2).Draw(t, "greylisted") == 0 {
+			// one check refuses the recipient the first time only, another one has a verdict of its own on it
+			sc.Checks[0].Rcpt, sc.Checks[0].RcptOnce, sc.Checks[0].Action = []int{rep}, true, "reject"
+			sc.Checks[1].Rcpt, sc.Checks[1].RcptOnce = []int{rep}, false
+			sc.Checks[1].Places = sc.Checks[0].Places
+		}
 	}
 	return sc
 }
@@ -121,8 +131,10 @@ type c06Check struct {
 }
 
 type c06State struct {
-	c  *c06Check
-	id int
+	c     *c06Check
+	id    int
+	mu    sync.Mutex
+	asked map[string]int
 }
 
 func (c *c06Check) CheckStateForMsg(ctx context.Context, _ *module.MsgMetadata) (module.CheckState, error) {
@@ -161,6 +173,15 @@ func (s *c06State) CheckRcpt(ctx context.Context, to string) module.CheckResult 
 			fail = true
 		}
 	}
+	s.mu.Lock()
+	if s.asked == nil {
+		s.asked = map[string]int{}
+	}
+	s.asked[to]++
+	if s.c.spec.RcptOnce && s.asked[to] > 1 {
+		fail = false
+	}
+	s.mu.Unlock()
 	return s.result("rcpt", to, fail)
 }
 func (s *c06State) CheckBody(ctx context.Context, h textproto.Header, b buffer.Buffer) module.CheckResult {
@@ -421,28 +442,59 @@ func c06Model(sc c06Scenario) c06Expect {
 	}
 	var acceptedSoFar []int // every earlier recipient is replayed, including refused ones
 	touched := map[int]bool{}
+	// a check is asked about a recipient once per message; a recipient that was refused is examined again by
+	// every check in scope when the client names it again
+	type ir struct{ i, r int }
+	settled := map[ir]bool{} // asked about r in an RCPT command that was accepted
+	asked := map[ir]int{}
 	for _, r := range sc.Rcpts {
 		must, may, quar := false, false, false
 		dpl := c06DestPlace(sc.Sender, r)
-		for i, c := range sc.Checks {
-			inScope := c06Has(c.Places, plGlobal) || c06Has(c.Places, srcPl) || c06Has(c.Places, dpl)
-			if !inScope {
-				continue
+		// the checks are run group by group - global, source block, destination block - and a rejection ends the
+		// command: the groups behind it are not asked
+		askedNow := map[int]bool{}
+		for _, pl := range []int{plGlobal, srcPl, dpl} {
+			if must {
+				break
 			}
-			if !met[i] {
-				// first met at this destination block: connection and sender are replayed
+			replayRejects := false
+			for i, c := range sc.Checks {
+				if !c06Has(c.Places, pl) || met[i] || askedNow[i] {
+					continue
+				}
+				// first met at this destination block: connection and sender are replayed (earlier recipients were
+				// handled by blocks the check is not referenced in: it does not see them)
 				for _, f := range []bool{c.Conn, c.Sender} {
 					rj, q := verdict(c, f)
-					must = must || rj
+					replayRejects = replayRejects || rj
 					quar = quar || q
 				}
-				// earlier recipients were handled by blocks the check is not referenced in (otherwise it would
-				// have been met already): they are outside its scope and it does not see them
-				_ = acceptedSoFar
 			}
-			rj, q := verdict(c, c06Has(c.Rcpt, r))
-			must = must || rj
-			quar = quar || q
+			_ = acceptedSoFar
+			if replayRejects {
+				must = true
+				break
+			}
+			for i, c := range sc.Checks {
+				if !c06Has(c.Places, pl) || askedNow[i] {
+					continue
+				}
+				askedNow[i] = true
+				if settled[ir{i, r}] {
+					continue
+				}
+				asked[ir{i, r}]++
+				rj, q := verdict(c, c06Has(c.Rcpt, r) && (!c.RcptOnce || asked[ir{i, r}] == 1))
+				must = must || rj
+				quar = quar || q
+			}
+		}
+		if !must {
+			for i := range sc.Checks {
+				if askedNow[i] {
+					settled[ir{i, r}] = true
+				}
+			}
 		}
 		ex.RcptMust = append(ex.RcptMust, must)
 		ex.RcptMay = append(ex.RcptMay, may)
@@ -526,7 +578,13 @@ func c06Run(sc c06Scenario) (vs []ev.V) {
 		if !want.RcptMust[i] && !want.RcptMay[i] && got.RcptRefused[i] {
 			return []ev.V{ev.Vf("enforce:rcpt:refused-without-reject", "%s: recipient %d was refused although no applicable check rejects it", desc(), i)}
 		}
-		if got.RcptRefused[i] {
+		acceptedLater := false // the client named the address again and that command was accepted
+		for j := range sc.Rcpts {
+			if j != i && j < len(got.RcptRefused) && sc.Rcpts[j] == sc.Rcpts[i] && !got.RcptRefused[j] {
+				acceptedLater = true
+			}
+		}
+		if got.RcptRefused[i] && !acceptedLater {
 			for k := range got.Delivered {
 				if strings.HasSuffix(k, "|"+c06Rcpts[sc.Rcpts[i]]) {
 					return []ev.V{ev.Vf("enforce:rcpt:refused-recipient-delivered", "%s: recipient %d was refused but delivered", desc(), i)}
@@ -709,7 +767,15 @@ func c06CallLog(sc c06Scenario, got c06Outcome, accepted bool) (vs []ev.V) {
 			}
 		}
 		for _, r := range scope {
-			if cnt[key{st, "rcpt", r}] != 1 {
+			// once for the command that was accepted; a command for the same address that was refused before may
+			// have been examined as well (the refused recipient was not "handled")
+			refusedBefore := 0
+			for j, x := range sc.Rcpts {
+				if c06Rcpts[x] == r && j < len(got.RcptRefused) && got.RcptRefused[j] {
+					refusedBefore++
+				}
+			}
+			if n := cnt[key{st, "rcpt", r}]; n < 1 || n > 1+refusedBefore {
 				return []ev.V{ev.Vf("calls:rcpt-missed", "accepted message: check c%d saw recipient %s %d times, want once; calls %v", i, r, cnt[key{st, "rcpt", r}], got.Calls)}
 			}
 		}
